@@ -12,7 +12,7 @@ RULE = ("Hypothesis (program, segmentation) pairs: program as in C02 without ill
         "<=8 pieces run_up_to / run_up_to_including / step / pause_after(k)+{start,bounded run}, whose bounds are "
         "resolved against the reference state: time of the next / k-th pending event (exact cut on an event time, "
         "ties included), midpoint to the next event, the clock itself, a fraction of the remaining horizon, the "
-        "warm-up time, the end, beyond the end, before the clock; always completed by start(). Oracle: (i) per "
+        "warm-up time, the end, beyond the end, before the clock (optionally as values of the other numeric type: x.5 floats on an int clock, whole ints on a float clock); optionally after an earlier replication of another length on the same simulator; always completed by start(). Oracle: (i) per "
         "piece the reference semantics (trace so far, clock == bound, STOPPED/STARTED and resumable unless the "
         "bound reached the end, then ENDED); (ii) metamorphic: trace + final clock equal one uninterrupted start() "
         "of the same program on a fresh simulator (when no exclusive bound == end was used); (iii) no executed "
@@ -64,11 +64,37 @@ def _piece():
 
 def strategy(tier):
     prog = progs.program_strategy(max_nodes=16 if tier == "quick" else 30, illegal=False, cap=150)
-    return st.fixed_dictionaries({"prog": prog, "pieces": st.lists(_piece(), min_size=1, max_size=8)})
+    return st.fixed_dictionaries({"prog": prog, "pieces": st.lists(_piece(), min_size=1, max_size=8),
+                                  # bounds of the other numeric type (float bounds between the ticks of an int
+                                  # clock, whole-number int bounds on a float clock)
+                                  "other_type": st.sampled_from([False, False, True]),
+                                  # an earlier replication with another length was run on the same simulator
+                                  "prior": st.sampled_from([None, None, None, "longer", "shorter"])})
 
 
-def _resolve(sel, ref, clock_kind):
-    """bound (reference number) for a selector, from the reference state"""
+def _other_length(rep, ck, longer):
+    r = dict(rep)
+    ln = rep["length"]
+    if ck == "int":
+        r["length"] = ln * 2 if longer else max(1, ln // 2)
+    elif ck == "float":
+        v = float.fromhex(ln)
+        r["length"] = (v * 2 if longer else v / 2).hex()
+    else:
+        v = float.fromhex(ln[0])
+        r["length"] = [(v * 2 if longer else v / 2).hex(), ln[1]]
+    return r
+
+
+def _resolve(sel, ref, clock_kind, other=False):
+    """bound (reference number) for a selector, from the reference state; other: use the other numeric type"""
+    b, lab = _resolve0(sel, ref, clock_kind, other)
+    if other and clock_kind == "float" and isinstance(b, float) and b == b and abs(b) < 2.0 ** 53 and b == int(b):
+        b = int(b)
+    return b, lab
+
+
+def _resolve0(sel, ref, clock_kind, other):
     pend = sorted(ref.pending, key=lambda e: (e[0], e[1], e[2]))
     times = [e[0] for e in pend]
     k = sel[0]
@@ -85,6 +111,8 @@ def _resolve(sel, ref, clock_kind):
         if hi == float("inf") or lo == float("-inf"):
             return lo, "cut=on-event"
         m = (lo + hi) // 2 if clock_kind == "int" else (lo + hi) / 2
+        if clock_kind == "int" and other and (lo + hi) % 2 and abs(lo + hi) < 2 ** 52:
+            m = (lo + hi) / 2            # x.5: a float bound strictly between two ticks of the int clock
         if m < ref.clock:
             m = ref.clock
         return m, ("cut=between" if lo < m < hi else "cut=on-event")
@@ -100,16 +128,16 @@ def _resolve(sel, ref, clock_kind):
     if k == "end":
         return ref.end, "cut=end"
     if k == "beyond":
-        return ref.end + (5 if clock_kind == "int" else 2.5), "cut=beyond-end"
+        return ref.end + (5 if clock_kind == "int" and not other else 2.5), "cut=beyond-end"
     return ref.clock - (1 if clock_kind == "int" else 0.5), "cut=before-clock"
 
 
 def _to_json_time(b, clock_kind):
     if clock_kind == "duration":
         return [float(b).hex(), "s"]
-    if clock_kind == "float":
+    if clock_kind == "float" and not isinstance(b, int):
         return float(b).hex()
-    return b
+    return b            # (an int, or a float bound for an int clock: handed over as it is)
 
 
 def run_case(case):
@@ -126,7 +154,15 @@ def run_case(case):
     feats = set()
     nbounded = 0
     concrete = []
+    other = bool(case.get("other_type")) and ck != "duration"
+    if other:
+        out.label("bounds-of-other-numeric-type")
+    abandoned = False
     try:
+        if case.get("prior"):
+            out.label("prior-replication=" + case["prior"])
+            h.initialize(_other_length(prog["rep"], ck, case["prior"] == "longer"))
+            h.run_piece(["start"])
         h.initialize()
         pieces = list(case["pieces"]) + [["start"], ["start"]]
         for pi, piece in enumerate(pieces):
@@ -137,7 +173,7 @@ def run_case(case):
             may_refuse = False
             cpiece = None
             if kind in ("run_up_to", "run_up_to_incl"):
-                b, lab = _resolve(piece[1], ref, ck)
+                b, lab = _resolve(piece[1], ref, ck, other)
                 cpiece = [kind, _to_json_time(b, ck)]
                 if not was_ended:
                     out.label(lab)
@@ -170,7 +206,7 @@ def run_case(case):
                     cst = ["start"]
                     b, incl = None, True
                 else:
-                    b, lab = _resolve(starter[1], ref, ck)
+                    b, lab = _resolve(starter[1], ref, ck, other)
                     cst = [starter[0], _to_json_time(b, ck)]
                     incl = starter[0] == "run_up_to_incl"
                     if not was_ended and b < ref.clock:
@@ -194,6 +230,15 @@ def run_case(case):
                 err = h.run_piece(cpiece)
             sim = h.sim
             ctx = {"piece": pi, "concrete": cpiece}
+            mixed = other and any(isinstance(x, (int, float)) and not isinstance(x, bool) and
+                                  isinstance(x, float) == (ck == "int")
+                                  for x in (cpiece[1:2] if cpiece[0] != "pause_after" else cpiece[2][1:2]))
+            if mixed and err is not None and not expect_refusal:
+                # a bound of the other numeric type that the simulator refuses: not judged (the property does not
+                # promise that such a bound is accepted) - the case ends here
+                out.label("mixed-type-bound-refused")
+                abandoned = True
+                break
             if err is not None and not isinstance(err, DSOLError):
                 out.fail("piece-raised-" + type(err).__name__, dict(ctx, err=repr(err)))
             if expect_refusal and err is None:
@@ -229,7 +274,7 @@ def run_case(case):
             if v > endv:
                 out.fail("executed-beyond-end", t)
                 break
-        if not out.disc:
+        if not out.disc and not abandoned:
             if not ref.ended:
                 out.fail("not-ended-after-final-start", [h.sim.run_state.name])
             # (ii) metamorphic: one uninterrupted run on a fresh simulator
@@ -243,7 +288,8 @@ def run_case(case):
                     if h2.model.trace != h.model.trace:
                         out.fail("segmented-vs-uninterrupted-trace",
                                  {"len_seg": len(h.model.trace), "len_plain": len(h2.model.trace), "pieces": concrete})
-                    if enc_obs(h2.sim.simulator_time) != enc_obs(h.sim.simulator_time):
+                    # (compared as values: an int bound on a float clock leaves the int 10 where start() leaves 10.0)
+                    if not (h2.sim.simulator_time == h.sim.simulator_time):
                         out.fail("segmented-vs-uninterrupted-clock",
                                  [enc_obs(h.sim.simulator_time), enc_obs(h2.sim.simulator_time)])
                 finally:
